@@ -12,7 +12,7 @@ use tx3_tir::model::v1beta0 as tir;
 use tx3_tir::reduce::{self, Apply as _, ArgValue};
 use tx3_tir::Node as _;
 
-fn tx_values(t: &tir::Tx) -> Vec<Value> {
+pub fn tx_values(t: &tir::Tx) -> Vec<Value> {
     // the same slot order as TxKids in spec/Tir.tla
     let mut v = vec![tirj::proj_expr(&t.fees)];
     v.extend(t.references.iter().map(tirj::proj_expr));
